@@ -170,7 +170,9 @@ func (r *PodReconciler) assignPodToGroupAndSubGroup(ctx context.Context, pod *v1
 		expectedSubGroup = sg.Name
 	}
 
-	if currentPG == metadata.Name && currentSubGroup == expectedSubGroup {
+	// A sub-group label is only ever written, never removed: when no sub-group is expected for the pod there
+	// is nothing to patch, whatever label the pod carries.
+	if currentPG == metadata.Name && (expectedSubGroup == "" || currentSubGroup == expectedSubGroup) {
 		return nil
 	}
 
